@@ -9,6 +9,7 @@ import (
 	"path/filepath"
 	"strconv"
 	"strings"
+	"time"
 
 	fscopy "github.com/tonistiigi/fsutil/copy"
 	"verif/evid"
@@ -33,11 +34,24 @@ type c14Case struct {
 	DirC    bool         `json:"dirc,omitempty"`
 	Mode    bool         `json:"mode,omitempty"` // numeric Mode option 0777
 	Include []string     `json:"include,omitempty"`
+	// Stamp: the Chown option (1234:1234) and the Utime option are given
+	Stamp bool `json:"stamp,omitempty"`
+	// Plant: while the copy runs, a link to /outside/f appears at this path below the destination root as soon as
+	// its parent directory exists and the path is still free (done from the Chown callback, the one place where
+	// a caller's code runs between two steps of a copy)
+	Plant string `json:"plant,omitempty"`
 }
 
 func (c c14Case) String() string {
-	return fmt.Sprintf("srcroot=%s dstroot=%s Copy(%q -> %q) follow=%v wildcards=%v always-replace=%v dircontents=%v mode=%v include=%q",
+	s := fmt.Sprintf("srcroot=%s dstroot=%s Copy(%q -> %q) follow=%v wildcards=%v always-replace=%v dircontents=%v mode=%v include=%q",
 		shapeOf(c.Src), shapeOf(c.Dst), c.SrcArg, c.DstArg, c.Follow, c.Wild, c.Repl, c.DirC, c.Mode, c.Include)
+	if c.Stamp {
+		s += " chown+utime"
+	}
+	if c.Plant != "" {
+		s += fmt.Sprintf(" link-to-outside-appears-at=%q", c.Plant)
+	}
+	return s
 }
 
 var c14Targets = []string{"/outside/f", "/outside/d", "../outside/d", "../../..", "/nowhere", "."}
@@ -139,6 +153,25 @@ func judgeC14(root string, c c14Case) (string, string) {
 	if c.Mode {
 		m := 0777
 		ci.Mode = &m
+	}
+	if c.Stamp {
+		tm := time.Unix(1_111_111_111, 5)
+		ci.Utime = &tm
+		ci.Chown = func(*fscopy.User) (*fscopy.User, error) { return &fscopy.User{UID: 1234, GID: 1234}, nil }
+	}
+	if c.Plant != "" {
+		target, inner := filepath.Join(root, "dstroot", c.Plant), ci.Chown
+		ci.Chown = func(u *fscopy.User) (*fscopy.User, error) {
+			if _, err := os.Lstat(filepath.Dir(target)); err == nil {
+				if _, err := os.Lstat(target); os.IsNotExist(err) {
+					os.Symlink("/outside/f", target)
+				}
+			}
+			if inner != nil {
+				return inner(u)
+			}
+			return u, nil
+		}
 	}
 	var cerr error
 	func() {
@@ -251,6 +284,10 @@ func c14Cases(tier string) []c14Case {
 					}
 					out = append(out, c)
 				}
+				// the options that stamp an owner and a time on what was copied
+				for o := 0; o < 4; o++ {
+					out = append(out, c14Case{Src: pr[0], Dst: pr[1], SrcArg: sa, DstArg: da, Follow: o&1 != 0, DirC: o&2 != 0, Stamp: true, Wild: hasWild(sa)})
+				}
 			}
 		}
 		// include patterns that select a nested entry without matching the directories above it: the
@@ -259,6 +296,17 @@ func c14Cases(tier string) []c14Case {
 			for _, da := range []string{"/", "x", "l"} {
 				for o := 0; o < 8; o++ {
 					out = append(out, c14Case{Src: pr[0], Dst: pr[1], SrcArg: "/", DstArg: da, Follow: o&1 != 0, Repl: o&2 != 0, DirC: o&4 != 0, Include: inc})
+				}
+			}
+		}
+	}
+	// the destination changes under the copy: a link to an outside file appears at a path the copy is about to write
+	for _, inc := range [][]string{nil, {"a/f"}, {"c/g"}, {"*/f"}, {"*/g"}, {"b"}} {
+		for _, da := range []string{"/", "x", "new", "new/sub"} {
+			for _, pl := range []string{"a/f", "b", "c/g"} {
+				for o := 0; o < 8; o++ {
+					out = append(out, c14Case{Src: srcBase, Dst: dstBase, SrcArg: "/", DstArg: da, DirC: true, Include: inc, Follow: o&1 != 0, Repl: o&2 != 0, Stamp: o&4 != 0,
+						Plant: filepath.Join(da, pl)})
 				}
 			}
 		}
